@@ -347,7 +347,7 @@ fn enumerate_c11(a: &Args, index: u64, out: &mut impl Write) -> Option<Replay> {
     let run_seed = run_seed_for(a.seed, &a.profile, index);
     let mut rng = Rng::new(run_seed, gen::STREAM_WORKLOAD);
     let prefix = gen::gen_small_world(&mut rng, 0, if a.thorough { 14 } else { 9 });
-    let enc = (index % 3) as u8;
+    let enc = (index % 4) as u8;
     let cont = gen::gen_continuation(&mut rng, 1, 5);
     // Dry run to learn the stream length and per-token alteration counts.
     let dry = run_ops(&prefix, 2, run_seed, false, Some((0, enc)));
@@ -510,8 +510,8 @@ fn c17_target(rng: &mut Rng, which: usize) -> Op {
         6 => Op::CloneFrom { src: 0, dst: 1 },
         7 => Op::EqCheck { a: 0, b: 1 },
         8 => Op::DebugFmt { slot: 0 },
-        9 => Op::RoundTrip { src: 0, dst: 1, enc: rng.below(3) as u8 },
-        10 => Op::RoundTrip { src: 0, dst: 0, enc: rng.below(3) as u8 },
+        9 => Op::RoundTrip { src: 0, dst: 1, enc: rng.below(4) as u8 },
+        10 => Op::RoundTrip { src: 0, dst: 0, enc: rng.below(4) as u8 },
         11 => Op::Extend { slot: 0, how: 1, site: rng.below(g::CLONED_SITES.len() as u64) as u16, n: rng.range(1, 4) as u16, extra: 0, seed: rng.next_u64() },
         12 => Op::Crash { slot: 0 },
         _ => Op::Entry {
@@ -539,7 +539,7 @@ fn enumerate_c17(a: &Args, index: u64, out: &mut impl Write) -> Option<Replay> {
         _ => {}
     }
     if rng.chance(1, 2) {
-        prefix.push(Op::Snapshot { slot: 0, enc: rng.below(3) as u8 });
+        prefix.push(Op::Snapshot { slot: 0, enc: rng.below(4) as u8 });
         prefix.extend(gen::gen_small_world(&mut rng, 0, 3));
     }
     let target = c17_target(&mut rng, (index as usize) % C17_TARGETS);
